@@ -968,25 +968,97 @@ func rC18Commands(w *World, r *Report) {
 }
 
 func rC18Fields(w *World, r *Report) {
-	ru := r.Rule("R18.6", "the per-option help line prints HelpSynopsis and Description for every option, DefaultStr for every non-required option and EnvVar on both branches", 4)
+	const text = "the per-option help line prints HelpSynopsis and Description for every option, DefaultStr for every non-required option and EnvVar on both branches"
+	sub := NewReport(r.Prop)
+	rC18FieldsOn(w, sub, text, false)
+	bad := false
+	for _, o := range sub.Obls {
+		if o.Status != stOK {
+			bad = true
+		}
+	}
+	if bad {
+		// the line assembled by OptionList itself from helpers that take the option's texts, not the option
+		sub2 := NewReport(r.Prop)
+		rC18FieldsOn(w, sub2, text, true)
+		clean := len(sub2.Obls) > 0
+		for _, o := range sub2.Obls {
+			if o.Status != stOK {
+				clean = false
+			}
+		}
+		if clean {
+			sub = sub2
+		}
+	}
+	ru := r.Rule("R18.6", text, 4)
+	for _, o := range sub.Obls {
+		ru.add(o.Status, o.Key, o.Pos, o.Detail, o.NonTrivial)
+	}
+}
+
+func rC18FieldsOn(w *World, r *Report, text string, spread bool) {
+	ru := r.Rule("R18.6", text, 4)
 	// the per-option renderer: the closure (or function) OptionList calls on every element of its option lists
 	w = w.written()
 	var fn *ssa.Function
-	if ol := w.Fn("help.OptionList"); ol != nil {
-		if rs := elementRenderers(w, ol, "*option.Option"); len(rs) == 1 {
+	var fns []*ssa.Function
+	ol := w.Fn("help.OptionList")
+	if ol != nil {
+		rs := elementRenderers(w, ol, "*option.Option")
+		if len(rs) == 1 {
 			fn = rs[0]
+		}
+		if spread && len(rs) >= 1 {
+			fn = rs[0]
+			fns = append(fns, rs...)
 		}
 	}
 	if fn == nil {
 		ru.Undecided("anchor", "-", "per-option renderer (the function OptionList calls on each option) not found")
 		return
 	}
-	reads := map[string][]ssa.Instruction{}
-	eachInstr(fn, func(in ssa.Instruction) {
-		if fa, ok := in.(*ssa.FieldAddr); ok && isOptionPtr(fa.X.Type()) {
-			reads[fieldOfAddr(fa).Name()] = append(reads[fieldOfAddr(fa).Name()], in)
+	if !spread {
+		fns = []*ssa.Function{fn}
+	}
+	inSet := func(f *ssa.Function) bool {
+		for _, g := range fns {
+			if g == f {
+				return true
+			}
 		}
-	})
+		return f == ol && spread
+	}
+	reads := map[string][]ssa.Instruction{}
+	for _, f := range fns {
+		eachInstr(f, func(in ssa.Instruction) {
+			if fa, ok := in.(*ssa.FieldAddr); ok && isOptionPtr(fa.X.Type()) {
+				reads[fieldOfAddr(fa).Name()] = append(reads[fieldOfAddr(fa).Name()], in)
+			}
+		})
+	}
+	if spread {
+		// in OptionList itself: only texts of the option that are handed to a function of the package (the line builder)
+		eachInstr(ol, func(in ssa.Instruction) {
+			fa, ok := in.(*ssa.FieldAddr)
+			if !ok || !isOptionPtr(fa.X.Type()) || fa.Referrers() == nil {
+				return
+			}
+			for _, ref := range *fa.Referrers() {
+				ld, ok := ref.(*ssa.UnOp)
+				if !ok || ld.Op != token.MUL || ld.Referrers() == nil {
+					continue
+				}
+				for _, use := range *ld.Referrers() {
+					if c, ok := use.(*ssa.Call); ok {
+						if cal := c.Call.StaticCallee(); cal != nil && w.PkgOfFn(cal) != nil {
+							reads[fieldOfAddr(fa).Name()] = append(reads[fieldOfAddr(fa).Name()], in)
+						}
+					}
+				}
+			}
+		})
+	}
 	isReqFact := func(b *ssa.BasicBlock, want bool) bool {
 		for _, f := range factsAt(b) {
 			if f.Op == token.ILLEGAL && f.Truth == want {
@@ -1007,16 +1079,18 @@ func rC18Fields(w *World, r *Report) {
 	}
 	ru.Check(okDef, "line/DefaultStr", w.Pos(fn.Pos()), "default shown for non-required options", "the default of non-required options is not shown")
 	envReq, envNorm := false, false
-	for _, c := range callsTo(fn, "fmt.Sprintf") {
-		call := c.(*ssa.Call)
-		if !mentionsFieldArgs(w, fn, call, "EnvVar") {
-			continue
-		}
-		if isReqFact(call.Block(), true) {
-			envReq = true
-		}
-		if isReqFact(call.Block(), false) {
-			envNorm = true
+	for _, f := range fns {
+		for _, c := range callsTo(f, "fmt.Sprintf") {
+			call := c.(*ssa.Call)
+			if !mentionsFieldArgs(w, f, call, "EnvVar") {
+				continue
+			}
+			if isReqFact(call.Block(), true) {
+				envReq = true
+			}
+			if isReqFact(call.Block(), false) {
+				envNorm = true
+			}
 		}
 	}
 	// written with + or a Builder instead of Sprintf: the variable's name is read and used for something other than a test
@@ -1044,6 +1118,10 @@ func rC18Fields(w *World, r *Report) {
 				if isReqFact(use.Block(), false) {
 					envNorm = true
 				}
+				// used where nothing was decided on IsRequired: shown for required and non-required options alike
+				if spread && !isReqFact(use.Block(), true) && !isReqFact(use.Block(), false) {
+					envReq, envNorm = true, true
+				}
 			}
 		}
 	}
@@ -1051,7 +1129,7 @@ func rC18Fields(w *World, r *Report) {
 	// one included) and the variable for every bound option
 	extraCond := func(b *ssa.BasicBlock, allowEnvTest bool) string {
 		for _, f := range factsAt(b) {
-			if f.If == nil || f.If.Parent() != fn {
+			if f.If == nil || !inSet(f.If.Parent()) {
 				continue
 			}
 			if f.Op == token.ILLEGAL {
@@ -1081,7 +1159,7 @@ func rC18Fields(w *World, r *Report) {
 	}
 	for _, c := range callsTo(fn, "fmt.Sprintf") {
 		call := c.(*ssa.Call)
-		if !mentionsFieldArgs(w, fn, call, "EnvVar") {
+		if spread || !mentionsFieldArgs(w, fn, call, "EnvVar") {
 			continue
 		}
 		at := extraCond(call.Block(), true)
@@ -1466,6 +1544,47 @@ func rC18Args(w *World, r *Report) {
 					if mc, ok := c.Call.Value.(*ssa.MakeClosure); ok {
 						if t, ok := mc.Fn.(*ssa.Function); ok && argRenderers[t] {
 							renders = true
+						}
+					}
+				}
+			}
+		}
+		if !renders && len(argRenderers) == 0 {
+			// no function takes the argument itself: the loop that hands the element's description to a function of
+			// the package is the one that renders it
+			elem := rangeElem(h)
+			for b := range naturalLoop(h) {
+				for _, in := range b.Instrs {
+					var fld *types.Var
+					var base ssa.Value
+					var val ssa.Value
+					switch x := in.(type) {
+					case *ssa.Field:
+						fld, base, val = fieldOfField(x), x.X, x
+					case *ssa.UnOp:
+						if fa, ok := x.X.(*ssa.FieldAddr); ok && x.Op == token.MUL {
+							fld, base, val = fieldOfAddr(fa), fa.X, x
+						}
+					}
+					if fld == nil || fld.Name() != "Description" || val.Referrers() == nil || !strings.Contains(typeString(base.Type()), "help.SynopsisArg") {
+						continue
+					}
+					fromElem := base == elem
+					if al, ok := base.(*ssa.Alloc); ok {
+						for _, sv := range storesInto(al) {
+							if sv == elem {
+								fromElem = true
+							}
+						}
+					}
+					if !fromElem {
+						continue
+					}
+					for _, use := range *val.Referrers() {
+						if c, ok := use.(*ssa.Call); ok {
+							if cal := c.Call.StaticCallee(); cal != nil && w.PkgOfFn(cal) != nil {
+								renders = true
+							}
 						}
 					}
 				}
